@@ -102,7 +102,7 @@ fn get_int(val: &Option<Value>) -> Option<i64> {
 
 fn eval_abs<'a>(args: &[Option<Value<'a>>]) -> Option<Value<'a>> {
     match args.first()?.as_ref()? {
-        Value::Int(n) => Some(Value::Int(n.abs())),
+        Value::Int(n) => n.checked_abs().map(Value::Int),
         Value::Float(f) => Some(Value::Float(f.abs())),
         Value::Null => Some(Value::Null),
         _ => None,
@@ -146,7 +146,7 @@ fn eval_div<'a>(args: &[Option<Value<'a>>]) -> Option<Value<'a>> {
         return Some(Value::Null);
     }
 
-    Some(Value::Int(a / b))
+    a.checked_div(b).map(Value::Int)
 }
 
 fn eval_ceil<'a>(args: &[Option<Value<'a>>]) -> Option<Value<'a>> {
